@@ -257,6 +257,14 @@ class ClassTable:
         # assigned in a subclass through self.x (e.g. pickup_logic set in __init__ of a subclass)
         return False
 
+    def is_instance_assigned(self, cname, fname):
+        """fname is written through self.<fname> somewhere in the hierarchy of cname (above or below)"""
+        for c in set(self.mro(cname)) | set(self.subclasses(cname)):
+            ci = self.classes[c]
+            if fname in ci.self_ann or fname in ci.self_assigned:
+                return True
+        return False
+
     def class_default(self, cname, fname):
         for c in self.mro(cname):
             ci = self.classes[c]
